@@ -160,6 +160,7 @@ impl<'a> SnapshotBuilder<'a> {
         // (no provider of a valid ASPA object is lost)
         !old(self).aspas@.contains_key(aspa.customer) ==>
             final(self).aspas@ == old(self).aspas@.insert(aspa.customer, (aspa.providers, info_published(aspa.info))),
+        // C09 + C02: a further ASPA object of a known customer adds its providers to the served set
         old(self).aspas@.contains_key(aspa.customer) ==> {
             &&& final(self).aspas@.dom() == old(self).aspas@.dom()
             &&& forall|k: Asn| k != aspa.customer && old(self).aspas@.contains_key(k)
